@@ -125,16 +125,41 @@ func (g *Gen) call(in ssa.Instruction, c *ssa.CallCommon, rt types.Type) Val {
 				continue
 			}
 			blk := in.Block()
+			at := -1 // index of the call in its block: names denote the values the variables have just before it
+			for k, bi := range blk.Instrs {
+				if bi == in {
+					at = k
+				}
+			}
+			if _, isDefer := in.(*ssa.Defer); isDefer {
+				at = -1 // a deferred call runs at the function's exit, not where it is registered
+			}
 			env := g.fnEnv(g.cur, nil)
 			g.lookupPos = pos
 			env.lookup = func(name string) (Val, bool) {
-				if v, ok := g.lookupVar(name, blk, -1, g.cur); ok {
+				if v, ok := g.lookupVar(name, blk, at, g.cur); ok {
 					return v, true
 				}
 				if g.outerLookup != nil {
 					return g.outerLookup(name, g.cur)
 				}
 				return Val{}, false
+			}
+			if g.inlineDepth == 0 {
+				// a parameter the function has reassigned: its name denotes the current value (entry value: name0)
+				for name := range g.params {
+					if strings.HasSuffix(name, "0") {
+						if _, isParam := g.params[strings.TrimSuffix(name, "0")]; isParam {
+							continue
+						}
+					}
+					if len(g.debugVals[name]) == 0 {
+						continue
+					}
+					if v, ok := g.lookupVar(name, blk, at, g.cur); ok {
+						env.vars[name] = v
+					}
+				}
 			}
 			for n, v := range g.params {
 				// captured variables of a closure are cells: their name denotes the current value
